@@ -109,6 +109,10 @@ FailedConc(props, single, M, ops, res, view) ==
   \cup Chk(props, "C14", "C14.FinalViewReadable", view.lenok /\ view.keysok /\ view.itemsok /\ view.loadok)
   \cup Chk(props, "C14", "C14.NoLostWrite", view.itemsok => \A i \in Writers(ops) : res[i].ok => \A k \in touchedBy(i) :
              alone(i, k) => view.items[k] = Apply(M, ops[i])[k])
+  \* a key that some completed operation stored, and that nobody removes, is there afterwards
+  \cup Chk(props, "C14", "C14.StoredKeyPresent", view.itemsok => \A k \in 1..Len(M) :
+             ((M[k] # 0 \/ \E i \in Writers(ops) : res[i].ok /\ ops[i].t \in {"set", "update", "dump"} /\ k \in touchedBy(i))
+              /\ ~Removes(ops, k)) => view.items[k] # 0)
   \cup Chk(props, "C14", "C14.FinalViewOnlyStoredValues", view.itemsok => \A k \in 1..Len(M) : MaySee(M, ops, k, view.items[k]))
   \cup Chk(props, "C14", "C14.SingleFileNoCompletedWriteLost", (single /\ view.itemsok) =>
              \* every writer completed: the final dictionary is all of them applied in some order
